@@ -346,7 +346,7 @@ use super::*;
         }
 """)
         # by-params branch
-        rf.after_stmt("let Some(members) = self.get_class_members_by_params(", """            proof {
+        rf.after_stmt("let Some(members) = self.get_class_members", occ=1, text="""            proof {
                 assert(members@ == class_members_by_params(*self, *class));
                 lemma_member_cmp2(sb, members@, frame.method@, frame_params@);
             }
@@ -366,7 +366,7 @@ use super::*;
             }
             """, occ=1)
         # line branch
-        rf.after_stmt("let Some(members) = self.get_class_members(", """            proof {
+        rf.after_stmt("let Some(members) = self.get_class_members", occ=2, text="""            proof {
                 assert(members@ == class_members(*self, *class));
                 lemma_member_cmp(sb, members@, frame.method@);
             }
@@ -388,6 +388,78 @@ use super::*;
     else:
         rf.contract("""    ensures match ret.inner { None => true, Some((cache, frame, members)) => members.obeys_prophetic_iter_laws() && members.decrease() is Some },""")
     u.emit(rf)
+
+    # ---------------- remap_method ----------------
+    rm = cm.impl_fn(IMPL, "remap_method")
+    rm.ret("ret")
+    rm.props_safety = ["C12"]
+    rm.props_all = ["C04", "C02"] if fun else ["C12"]
+    rm.closure("|m|", params="|m: &raw::Member|", ret="o: Ordering",
+               spec="ensures o == member_cmp(self.string_bytes@, *m, method@)" if fun else "")
+    rm.closure("|member|", params="|member: &raw::Member|", ret="b: bool",
+               spec="ensures b == (member.original_name_offset == first.original_name_offset)")
+    rm.body_start(STR_ORD)
+    if fun:
+        rm.contract("""    requires wf_cache(*self),
+    ensures
+        /*@L:method_iff_unanimous:C04,C02*/ ({ let sb = self.string_bytes@;
+          match ret {
+            Some((oc, om)) => exists|i: int| #[trigger] has_class(*self, i, class@) && tbl(sb, self.classes@[i].original_name_offset) == Some(oc@)
+                && ({ let ms = class_members(*self, self.classes@[i]);
+                      (exists|k: int| 0 <= k < ms.len() && tbl(sb, (#[trigger] ms[k]).obfuscated_name_offset) == Some(method@))
+                      && (forall|k: int| 0 <= k < ms.len() && tbl(sb, (#[trigger] ms[k]).obfuscated_name_offset) == Some(method@)
+                            ==> tbl(sb, ms[k].original_name_offset) == Some(om@)) }),
+            None => no_class(*self, class@) || (exists|i: int| #[trigger] has_class(*self, i, class@)
+                && ({ let ms = class_members(*self, self.classes@[i]);
+                      (forall|k: int| 0 <= k < ms.len() ==> tbl(sb, (#[trigger] ms[k]).obfuscated_name_offset) != Some(method@))
+                      || (exists|k1: int, k2: int| 0 <= k1 < ms.len() && 0 <= k2 < ms.len()
+                            && tbl(sb, (#[trigger] ms[k1]).obfuscated_name_offset) == Some(method@) && tbl(sb, (#[trigger] ms[k2]).obfuscated_name_offset) == Some(method@)
+                            && tbl(sb, ms[k1].original_name_offset) != tbl(sb, ms[k2].original_name_offset)) })),
+          } }),""")
+        rm.body_start("let ghost cname = class@;\n        let ghost sb = self.string_bytes@;\n        let ghost mut i0: int = 0;\n        let ghost mut p: int = 0; let ghost mut q: int = 0;\n")
+        rm.after_stmt("let class = self.get_class(", """        proof {
+            i0 = choose|i: int| 0 <= i < self.classes@.len() && *class == #[trigger] self.classes@[i];
+            assert(has_class(*self, i0, cname));
+            assert(wf_class(*self, self.classes@[i0]));
+        }
+""")
+        rm.after_stmt("let members = self.get_class_members(", """        let ghost ms = members@;
+        proof {
+            assert(ms == class_members(*self, self.classes@[i0]));
+            lemma_member_cmp(sb, ms, method@);
+        }
+""")
+        rm.after_stmt("let matching_members = Self::find_range_by_binary_search(", """        proof {
+            let pq = choose|p: int, q: int| 0 <= p < q <= ms.len() && #[trigger] ms.subrange(p, q) == matching_members@
+                    && (forall|k: int| p <= k < q ==> member_cmp(sb, #[trigger] ms[k], method@) == Ordering::Equal)
+                    && (forall|k: int| (0 <= k < p || q <= k < ms.len()) ==> member_cmp(sb, #[trigger] ms[k], method@) != Ordering::Equal);
+            p = pq.0; q = pq.1;
+            assert(is_block(sb, ms, p, q, method@));
+            assert(matching_members@[0] == ms[p]);
+        }
+""")
+        rm.after_stmt("let first = iter.next()", """        proof { assert(*first == ms[p]); assert(forall|j: int| 0 <= j < iter.remaining().len() ==> *#[trigger] iter.remaining()[j] == ms[p + 1 + j]); }
+        let ghost rem1 = iter.remaining();
+""")
+        rm.insert_before("return None;", """proof {
+                let idx = choose|idx: int| 0 <= idx < rem1.len() && rem1[idx].original_name_offset != first.original_name_offset;
+                assert(ms[p + 1 + idx] == *rem1[idx]);
+                assert(tbl(sb, ms[p + 1 + idx].obfuscated_name_offset) == Some(method@));
+                assert(tbl(sb, ms[p].obfuscated_name_offset) == Some(method@));
+                assert(tbl(sb, ms[p + 1 + idx].original_name_offset) != tbl(sb, ms[p].original_name_offset));
+            }
+            """)
+        rm.before_tail("""proof {
+            assert(tbl(sb, ms[p].obfuscated_name_offset) == Some(method@));
+            assert forall|k: int| 0 <= k < ms.len() && tbl(sb, (#[trigger] ms[k]).obfuscated_name_offset) == Some(method@)
+                implies tbl(sb, ms[k].original_name_offset) == Some(original_method@) by {
+                if k > p { assert(*rem1[k - p - 1] == ms[k]); }
+            }
+        }
+        """)
+    else:
+        rm.contract("    ensures true,")
+    u.emit(rm)
 
     u.raw("} // impl ProguardCache\n", "glue")
     # =================== RemappedFrameIter ===================
